@@ -337,22 +337,31 @@ Section Numeric.
     mapM (fun kd => do e <- expectation (snd (fst kd)) (snd kd); Ok (fst kd, e)) full.
 
   (* row of the LI transformation matrix for (in_s, meas):
-     _vec(np.kron(conj(full_rhos[in_s]), full_paulis[meas])).conj() *)
+     _vec(np.kron(full_paulis[meas], conj(full_rhos[in_s]))).conj() *)
   Definition li_row (n : nat) (k : instr * mstr) : nat -> K :=
+    let dim := (2 ^ n)%nat in
+    fun x => conj (vec (dim * dim) (kron dim (kfold pauli_mat (snd k)) (mconj (kfold rho_mat (fst k)))) x).
+  (* the row on the pinned tree (before fix 00f76fe), kept for the regression theorems:
+     _vec(np.kron(conj(full_rhos[in_s]), full_paulis[meas])).conj() *)
+  Definition li_row_pinned (n : nat) (k : instr * mstr) : nat -> K :=
     let dim := (2 ^ n)%nat in
     fun x => conj (vec (dim * dim) (kron dim (mconj (kfold rho_mat (fst k))) (kfold pauli_mat (snd k))) x).
 
   (* LIProcessTomography.process.  [solve N T b] stands for np.linalg.pinv(T) @ b
-     on an N x N system (oracle; contract in Proofs/TomoProcP.v) *)
-  Definition li_process (solve : nat -> mat -> (nat -> K) -> nat -> K)
+     on an N x N system (oracle; contract in Proofs/TomoProcP.v); [row] is the row
+     function ([li_row], or [li_row_pinned] for the regression theorems) *)
+  Definition li_process_gen (row : nat -> instr * mstr -> nat -> K)
+             (solve : nat -> mat -> (nat -> K) -> nat -> K)
              (n : nat) (req : list mstr) (results : list data) : res mat :=
     do full <- run_required n (istrings li_inputs n) req results;
     do lams <- expectations full;
     let dim := (2 ^ n)%nat in
     let N := length lams in
-    let T : mat := fun i x => li_row n (fst (nth i lams (([], []), 0))) x in
+    let T : mat := fun i x => row n (fst (nth i lams (([], []), 0))) x in
     let b := fun i => snd (nth i lams (([], []), 0)) in
     Ok (unvec (dim * dim) (solve N T b)).
+  Definition li_process := li_process_gen li_row.
+  Definition li_process_pinned := li_process_gen li_row_pinned.
 
   (* utils.process_fidelity *)
   Definition process_fidelity (sqrtm : nat -> mat -> mat) (kabs : K -> K)
@@ -396,8 +405,20 @@ Section Numeric.
   Definition mle_input_basis (n : nat) : list instr := istrings mle_inputs n.
   Definition mle_meas_basis (n : nat) : list mstr := tomo_measurements n true.
 
-  (* _a_mat: rows 2(len(meas)*i + j) and +1 *)
+  (* _a_mat: rows 2(len(meas)*i + j) and +1:
+     _vec(np.kron((id +- obs)/2, rho.T)) / 2**(2n) *)
   Definition a_rows (n : nat) : list (nat -> K) :=
+    let dim := (2 ^ n)%nat in
+    let w := kinv o (pow2 (2 * n)) in
+    flat_map (fun in_s =>
+      flat_map (fun meas =>
+        let obs := kfold pauli_mat meas in
+        let proj (s : bool) : mat := fun i j => (mid o i j + sg s * obs i j) * half in
+        let row (s : bool) : nat -> K :=
+          fun x => vec (dim * dim) (kron dim (proj s) (mtrans (kfold rho_mat in_s))) x * w in
+        [row false; row true]) (mle_meas_basis n)) (mle_input_basis n).
+  (* the rows on the pinned tree (before fix daa21e7): _vec(np.kron(rho, ((id +- obs)/2).T)) *)
+  Definition a_rows_pinned (n : nat) : list (nat -> K) :=
     let dim := (2 ^ n)%nat in
     let w := kinv o (pow2 (2 * n)) in
     flat_map (fun in_s =>
@@ -420,18 +441,28 @@ Section Numeric.
 
   (* 1e-8 *)
   Definition clip_min : K := kinv o (kofZ o 100000000).
-  (* _p_vec: (A @ vec(choi.T)).clip(1e-8); p_lin is the value before clipping *)
-  Definition p_lin (n : nat) (choi : mat) : list K :=
+  (* _p_vec: (A @ vec(choi.T)).clip(1e-8); p_lin is the value before clipping.
+     [rows] = the rows of the A matrix *)
+  Definition p_lin_of (rows : list (nat -> K)) (n : nat) (choi : mat) : list K :=
     let D := (4 ^ n)%nat in
-    map (fun row => sumn o (D * D) (fun x => row x * vec D (mtrans choi) x)) (a_rows n).
+    map (fun row => sumn o (D * D) (fun x => row x * vec D (mtrans choi) x)) rows.
   Definition clip (x : K) : K := if kleb o clip_min x then x else clip_min.
-  Definition p_vec (n : nat) (choi : mat) : list K := map clip (p_lin n choi).
+  Definition p_vec_of (rows : list (nat -> K)) (n : nat) (choi : mat) : list K := map clip (p_lin_of rows n choi).
+  Definition p_lin (n : nat) (choi : mat) : list K := p_lin_of (a_rows n) n choi.
+  Definition p_vec (n : nat) (choi : mat) : list K := p_vec_of (a_rows n) n choi.
 
-  (* _gradient: -unvec(conj(A.T) @ (n_vec / p_vec(choi))) *)
+  (* _gradient: -unvec(A.T @ (n_vec / p_vec(choi))) *)
   Definition gradient (n : nat) (choi : mat) (n_vec : list K) : mat :=
     let D := (4 ^ n)%nat in
     let w := map (fun np => fst np * kinv o (snd np)) (combine n_vec (p_vec n choi)) in
     let rows := combine (a_rows n) w in
+    unvec D (fun x => - suml o rows (fun rw => fst rw x * snd rw)).
+  (* on the pinned tree (before fix daa21e7): -unvec(conj(A.T) @ (n_vec / p_vec(choi))) with
+     the pinned A matrix *)
+  Definition gradient_pinned (n : nat) (choi : mat) (n_vec : list K) : mat :=
+    let D := (4 ^ n)%nat in
+    let w := map (fun np => fst np * kinv o (snd np)) (combine n_vec (p_vec_of (a_rows_pinned n) n choi)) in
+    let rows := combine (a_rows_pinned n) w in
     unvec D (fun x => - suml o rows (fun rw => conj (fst rw x) * snd rw)).
 
   (* _tp_proj on a 4^n x 4^n matrix *)
